@@ -257,7 +257,7 @@ func (p LedgerChannelProposalMsg) Valid() error {
 	if err := p.BaseChannelProposal.Valid(); err != nil {
 		return err
 	}
-	if p.Participant == nil {
+	if len(p.Participant) == 0 {
 		return errors.New("invalid nil participant")
 	}
 	return nil
